@@ -11,9 +11,23 @@ MOD = "sopht.utils.restart_sim"
 
 
 class _P:
+    """stand-in for pathlib.Path entries of a directory listing (ordered like paths: by their text)"""
+
     def __init__(self, name):
         self.name = name
         self.stem = name.rsplit(".", 1)[0]
+
+    def __lt__(self, other):
+        return self.name < other.name
+
+    def __eq__(self, other):
+        return isinstance(other, _P) and self.name == other.name
+
+    def __hash__(self):
+        return hash(self.name)
+
+    def __str__(self):
+        return self.name
 
 
 def listing_stub(names):
